@@ -62,6 +62,27 @@ pub fn corpus_list(repo: &str) -> Vec<(String, Vec<u8>)> {
     v
 }
 
+/// generated documents (family, index, seed) that the library under test could not open
+pub static BROKEN: std::sync::Mutex<Vec<(String, u64, u64)>> = std::sync::Mutex::new(Vec::new());
+
+/// Does the library open generated document `k` of `family`? (replay of a BROKEN entry)
+pub fn generated_loads(repo: &str, verif_seed: u64, family: &str, k: u64) -> bool {
+    let fam = match family {
+        "two_leaf" => Family::TwoLeaf,
+        "cyclic_parents" => Family::CyclicParents,
+        "deep_tree" => Family::DeepTree,
+        "rich_encrypted" => Family::RichEncrypted,
+        "dangling" => Family::Dangling,
+        "shared_header" => Family::SharedHeader,
+        "jbig_cycle" => Family::JbigCycle,
+        _ => Family::Rich,
+    };
+    let mut pool = Pool::new(repo, verif_seed);
+    let d = pool.generated(&fam, k);
+    BROKEN.lock().unwrap().clear();
+    d.inv.loadable
+}
+
 pub struct Pool {
     repo: String,
     verif_seed: u64,
@@ -105,8 +126,9 @@ impl Pool {
         }
         let d = Arc::new(Doc::from_bytes(&key, family.name(), bytes, b""));
         if !d.inv.loadable {
-            eprintln!("HARNESS-ERROR: generated document {} does not load", key);
-            std::process::exit(2);
+            // the writer's output passed the strict reader: a library that cannot open it is what the
+            // checks are about, not a harness error. Reported once per worker as a violation.
+            BROKEN.lock().unwrap().push((family.name().to_string(), k, self.verif_seed));
         }
         self.cache.insert(key, d.clone());
         d
